@@ -24,7 +24,7 @@ def gen_workers(rng):
     return pools
 
 
-def gen_workload(rng, malformed=False):
+def gen_workload(rng, malformed=False, batch=False):
     graphs, profiles = [], []
     njobs = rng.choice([1, 1, 2, 3])
     for ji in range(njobs):
@@ -45,6 +45,20 @@ def gen_workload(rng, malformed=False):
         for lab in order:
             nd = spec["nodes"][lab]
             pname = f"{jname}_P{lab}"
+            if batch and profiles and rng.random() < 0.5:
+                # share a work profile (hence its strategy objects) with an earlier task: batches need that
+                node = {"name": nd["name"], "work_profile": rng.choice(profiles)["name"]}
+                kids = dict(spec["mapping"])[lab]
+                if kids:
+                    node["children"] = [spec["nodes"][k]["name"] for k in kids]
+                if nd["conditional"]:
+                    node["conditional"] = True
+                if nd["terminal"]:
+                    node["terminal"] = True
+                if nd["prob"] != 1000:
+                    node["probability"] = nd["prob"] / 1000.0
+                nodes.append(node)
+                continue
             strategies = []
             for s in nd["strategies"]:
                 rt = s["rt"]
@@ -55,7 +69,7 @@ def gen_workload(rng, malformed=False):
                     req[f"{nm}:any"] = rng.choice([1, 1, 1, 2])
                 if "GPU:any" not in req and rng.random() < 0.7:
                     req = {"GPU:any": rng.choice([1, 1, 2])}
-                strategies.append({"batch_size": 1, "runtime": rt, "resource_requirements": req})
+                strategies.append({"batch_size": rng.choice([2, 3, 4]) if batch and rng.random() < 0.8 else 1, "runtime": rt, "resource_requirements": req})
             profiles.append({"name": pname, "execution_strategies": strategies})
             node = {"name": nd["name"], "work_profile": pname}
             kids = dict(spec["mapping"])[lab]
@@ -83,9 +97,12 @@ def gen_workload(rng, malformed=False):
 
 def gen_world(rng, stream="regular"):
     malformed = stream == "malformed"
-    wl = gen_workload(rng, malformed)
+    batch = stream == "batch"
+    wl = gen_workload(rng, malformed, batch)
     periodic = any(g["release_policy"] == "periodic" for g in wl["graphs"])
     pol = rng.choice(["EDF", "FIFO", "LSF", "RANDOM", "RANDOM"])
+    if batch:
+        pol = "RANDOM"
     flags = {
         "loop_timeout": rng.choice([60, 120, 400]) if (periodic or rng.random() < 0.3) else rng.choice([9223372036854775807, 5000]),
         "scheduler_frequency": rng.choice([-1, -1, 0, 1, 7]),
@@ -102,4 +119,7 @@ def gen_world(rng, stream="regular"):
     if pol == "RANDOM":
         policy.update(lookahead=rng.choice([0, 0, 5, 50]), retract=rng.random() < 0.3, cancel_prob=rng.choice([0.0, 0.05, 0.15]))
         flags["release_taskgraphs"] = rng.random() < 0.2
+        if batch:
+            policy["batch_prob"] = rng.choice([0.5, 0.8, 1.0])
+            policy["cancel_prob"] = rng.choice([0.0, 0.0, 0.05])
     return {"workers": gen_workers(rng), "workload": wl, "flags": flags, "policy": policy, "stream": stream, "max_steps": 3000}
